@@ -163,9 +163,9 @@ CHECKS = {
              'answers only an entry with exactly that name, so an absent name is never answered with another entry; completeness under '
              'injectivity/range of h on the (distinct) names with the table built by pack; the linear fallback finds the first entry with '
              'that name and both paths agree; GType-name and error-domain scans return the first matching registered-type/error-enum '
-             'entry (`_partial` + witness for <glib:boxed>); the GType prefix filter characterised. Repository level: a state machine '
+             'entry, for all seven kinds whose blob struct carries a gtype_name (C14_registered_kinds pins them from the header and girnode.c); the GType prefix filter characterised. Repository level: a state machine '
              'of girepository.c (eager and lazy tables, the positive caches info_by_gtype/info_by_error_domain, the negative cache '
-             'unknown_gtypes, register/load lazy and eager, lazy->eager transition) with C14_history: for EVERY history no call aborts '
+             'unknown_gtypes, register/load lazy and eager, lazy->eager promotion of the loaded typelib) with C14_history: for EVERY history no call aborts '
              'and every find answer is a typelib-level answer of a typelib loaded at that moment, NULL iff all loaded typelibs say NULL, '
              'equal to the cache-free search when the key is unique; the cache insert/clear sites are pinned from the source each run '
              '(C14_cache_shape). Checked per run: cmph injectivity/range on every compiled name set; generated histories on the real '
